@@ -4,7 +4,7 @@
    A second-order tensor is a function  i j |-> t_ij  (i,j in {0,1,2}), a fourth-order tensor a function
    i j k l |-> c_ijkl.  TFEL stores
      tensor<N>   : (t00 t11 t22 | t01 t10 | t02 t20 t12 t21)          3 / 5 / 9 values in 1D / 2D / 3D
-     stensor<N>  : (s00 s11 s22 | V2 s01 | V2 s02  V2 s12)            3 / 4 / 6 values   (V2 = sqrt 2)
+     stensor<N>  : (s00 s11 s22 | V2 s01 | V2 s02  V2 s12)            3 / 4 / 6 values   (V2 = sqrt 2, "Mandel")
      st2tost2<N> : matrix C(I,J) on stensor storage   (linear map stensor -> stensor)
      t2tot2<N>   : matrix C(I,J) on tensor storage    (tensor -> tensor)
      t2tost2<N>  : rows on stensor storage, columns on tensor storage   (tensor -> stensor)
@@ -12,7 +12,8 @@
    `full_*` gives the meaning of a storage vector (components outside the 1D/2D pattern are 0),
    `flat_*` stores a full object again.  The storage vector of an object is a function  nat -> R
    indexed row-major, C(I,J) at position I*ncols+J. *)
-From Coq Require Import Reals List Bool Arith Lra.
+From Coq Require Import Reals List Bool Arith Lra Lia.
+From VLib Require Import RealExtra.
 Import ListNotations.
 Local Open Scope R_scope.
 
@@ -49,6 +50,8 @@ Definition idx6 (i j : nat) : nat :=
   end%nat.
 (* Mandel weight of component (i,j) *)
 Definition w (i j : nat) : R := if Nat.eqb i j then 1 else sqrt 2.
+(* its inverse, 1/sqrt 2 = sqrt 2 / 2 off the diagonal (lemma iw_w below) *)
+Definition iw (i j : nat) : R := if Nat.eqb i j then 1 else sqrt 2 / 2.
 
 Definition pairs9 : list (nat * nat) := [(0,0); (1,1); (2,2); (0,1); (1,0); (0,2); (2,0); (1,2); (2,1)]%nat.
 Definition pairs6 : list (nat * nat) := [(0,0); (1,1); (2,2); (0,1); (0,2); (1,2)]%nat.
@@ -58,7 +61,7 @@ Definition full_x (N : nat) (v : vec) : R := v 0%nat.
 Definition full_t (N : nat) (v : vec) : M2 :=
   fun i j => if Nat.ltb (idx9 i j) (tsize N) then v (idx9 i j) else 0.
 Definition full_s (N : nat) (v : vec) : M2 :=
-  fun i j => if Nat.ltb (idx6 i j) (ssize N) then v (idx6 i j) / w i j else 0.
+  fun i j => if Nat.ltb (idx6 i j) (ssize N) then v (idx6 i j) * iw i j else 0.
 (* a 3x3 matrix stored row-major (tmatrix<3,3>, "rotation_matrix"); in 2D only the in-plane block acts, in 1D none *)
 Definition full_r (N : nat) (v : vec) : M2 :=
   match N with
@@ -70,16 +73,16 @@ Definition full_r (N : nat) (v : vec) : M2 :=
 Definition full_v (N : nat) (v : vec) : nat -> R := v.
 Definition full_A (N : nat) (v : vec) : M4 :=
   fun i j k l => if Nat.ltb (idx6 i j) (ssize N) && Nat.ltb (idx6 k l) (ssize N)
-                 then v (idx6 i j * ssize N + idx6 k l)%nat / (w i j * w k l) else 0.
+                 then v (idx6 i j * ssize N + idx6 k l)%nat * (iw i j * iw k l) else 0.
 Definition full_B (N : nat) (v : vec) : M4 :=
   fun i j k l => if Nat.ltb (idx9 i j) (tsize N) && Nat.ltb (idx9 k l) (tsize N)
                  then v (idx9 i j * tsize N + idx9 k l)%nat else 0.
 Definition full_C (N : nat) (v : vec) : M4 :=
   fun i j k l => if Nat.ltb (idx6 i j) (ssize N) && Nat.ltb (idx9 k l) (tsize N)
-                 then v (idx6 i j * tsize N + idx9 k l)%nat / w i j else 0.
+                 then v (idx6 i j * tsize N + idx9 k l)%nat * iw i j else 0.
 Definition full_D (N : nat) (v : vec) : M4 :=
   fun i j k l => if Nat.ltb (idx9 i j) (tsize N) && Nat.ltb (idx6 k l) (ssize N)
-                 then v (idx9 i j * ssize N + idx6 k l)%nat / w k l else 0.
+                 then v (idx9 i j * ssize N + idx6 k l)%nat * iw k l else 0.
 
 (* ---- storage of full objects *)
 Definition flat_x (N : nat) (x : R) : list R := [x].
@@ -160,3 +163,6 @@ Lemma idx6_sym i j : idx6 i j = idx6 j i.
 Proof. destruct i as [|[|[|i]]], j as [|[|[|j]]]; reflexivity. Qed.
 Lemma w_sym i j : w i j = w j i.
 Proof. unfold w. now rewrite Nat.eqb_sym. Qed.
+Lemma iw_w i j : iw i j * w i j = 1.
+Proof. unfold iw, w. destruct (Nat.eqb i j); [ring | field_simplify_eq; ring [sqrt2_sq]]. Qed.
+
